@@ -50,6 +50,59 @@ struct PathFNode<StorageT> {
     cf: u16,
 }
 
+/// Release a cactus stack one element at a time, for as long as this is the only reference to
+/// its top: dropping the last reference to a long `Cactus` otherwise recurses once per element.
+fn unwind_cactus<T>(mut c: Cactus<T>) {
+    loop {
+        let parent = c.parent();
+        match (c.try_unwrap(), parent) {
+            (Ok(_), Some(p)) => c = p,
+            _ => break,
+        }
+    }
+}
+
+// A search node's parse stack and repair history can be tens of thousands of elements long (a
+// grammar in which a token can be inserted again and again lets the history grow to the limit of
+// the cost type within the time budget); the node that holds the last reference to such a chain
+// must not free it recursively.
+impl<StorageT> Drop for PathFNode<StorageT> {
+    fn drop(&mut self) {
+        unwind_cactus(std::mem::replace(&mut self.pstack, Cactus::new()));
+        unwind_repairs(std::mem::replace(&mut self.repairs, Cactus::new()));
+    }
+}
+
+/// As `unwind_cactus`, for a repair history: the alternative histories folded into a
+/// `RepairMerge::Merge` element are (long) cactus stacks themselves and are released the same way.
+fn unwind_repairs<StorageT>(c: Cactus<RepairMerge<StorageT>>) {
+    let mut work = vec![c];
+    while let Some(mut c) = work.pop() {
+        loop {
+            let parent = c.parent();
+            match c.try_unwrap() {
+                Ok(RepairMerge::Merge(_, mut alts)) => loop {
+                    let alts_parent = alts.parent();
+                    match alts.try_unwrap() {
+                        Ok(alt) => work.push(alt),
+                        Err(_) => break,
+                    }
+                    match alts_parent {
+                        Some(p) => alts = p,
+                        None => break,
+                    }
+                },
+                Ok(_) => (),
+                Err(_) => break,
+            }
+            match parent {
+                Some(p) => c = p,
+                None => break,
+            }
+        }
+    }
+}
+
 impl<StorageT: PrimInt + Unsigned> PathFNode<StorageT> {
     fn last_repair(&self) -> Option<Repair<StorageT>> {
         match *self.repairs.val().unwrap() {
@@ -234,11 +287,12 @@ where
                     // If the repair sequences are identical, then merging is pointless.
                     return;
                 }
+                let new_repairs = new.repairs.clone();
                 let merge = match *old.repairs.val().unwrap() {
                     RepairMerge::Repair(r) => {
-                        RepairMerge::Merge(r, Cactus::new().child(new.repairs))
+                        RepairMerge::Merge(r, Cactus::new().child(new_repairs))
                     }
-                    RepairMerge::Merge(r, ref v) => RepairMerge::Merge(r, v.child(new.repairs)),
+                    RepairMerge::Merge(r, ref v) => RepairMerge::Merge(r, v.child(new_repairs)),
                     _ => unreachable!(),
                 };
                 old.repairs = old.repairs.parent().unwrap().child(merge);
